@@ -20,8 +20,8 @@ EXTENDS Ranges
 
 CONSTANTS MaxLen, MaxN, NoFixBug, StepBug
 
-VARIABLES len, start, n, walk, j
-vars == <<len, start, n, walk, j>>
+VARIABLES len, start, n, walk, j, prev
+vars == <<len, start, n, walk, j, prev>>
 
 (* C++ integer division truncates toward zero *)
 TruncRem(a, m) == IF a >= 0 THEN a % m ELSE -((-a) % m)
@@ -37,11 +37,13 @@ Init ==
   /\ n \in -MaxN..MaxN
   /\ walk = start
   /\ j = 0
+  /\ prev = start      \* round 3: the position a post-increment / post-decrement of the last step returned
 
 Step ==
   /\ j < Abs(n)
   /\ walk' = IF n > 0 THEN IncImpl(walk, len) ELSE DecImpl(walk, len)
   /\ j' = j + 1
+  /\ prev' = walk     \* base_impl.hpp operator++(int): derived temp{this->get()}; ++(*this); return temp;
   /\ UNCHANGED <<len, start, n>>
 Done == j = Abs(n) /\ UNCHANGED vars
 Spec == Init /\ [][Step \/ Done]_vars
@@ -67,6 +69,22 @@ RALaw ==
           \/ x = "lt" /\ DistImpl(i, j2) > 0
           \/ x = "eq" /\ i = j2
           \/ x = "gt" /\ DistImpl(j2, i) > 0}) = 1
+
+(* round 3: the operators fcppt::iterator::base derives from increment / decrement / advance
+   (base_impl.hpp): it++ / it-- return the position before the step (PostLaw: the returned positions
+   are start and then the positions of the |n| single steps, shifted by one); it[n] = *(it + n),
+   n + it = it + n, it - n = it + (-n) land where advance(n) resp. advance(-n) lands (SubscriptLaw:
+   the same element as |n| single steps reach). *)
+PostLaw ==
+  /\ j = 0 => prev = start
+  /\ j > 0 => /\ prev = (IF n >= 0 THEN start + (j - 1) ELSE start - (j - 1)) % len
+              /\ prev = (IF j = 1 THEN start ELSE CycSteps(start, n, len)[j - 1])
+              /\ walk = (IF n > 0 THEN CycInc(prev, len) ELSE CycDec(prev, len))
+SubscriptImpl(i, d, size) == AdvanceImpl(i, d, size)           \* *(*this + n): the position dereferenced
+SubscriptLaw ==
+  /\ SubscriptImpl(start, n, len) = Last(CycSteps(start, n, len), start)
+  /\ SubscriptImpl(start, n, len) \in 0..(len - 1)
+  /\ AdvanceImpl(start, -n, len) = Last(CycSteps(start, -n, len), start)
 
 AdvanceLaw ==
   /\ adv = CycAdvance(start, n, len)
